@@ -35,7 +35,7 @@ def all_cases(ctx):
     cs = F.f_shape() + F.f_bb() + F.f_cyc()
     cs.append((("constonly",), mkspec("constonly", [("k0", "0", []), ("k1", "1", []), ("o", "and", ["k0", "k1"], True), ("p", "xnor", ["k0", "k1"], True)])))
     cs += [wide(8, "and"), wide(8, "xor"), wide(12, "nor")]
-    cs += F.f_rand(ctx.seed, 20 if ctx.quick else 150)
+    cs += F.f_rand(ctx.seed, 20 if ctx.quick else 150) + F.f_rand_bb(ctx.seed, 8 if ctx.quick else 60)
     return cs
 
 
